@@ -7,6 +7,7 @@ import (
 	"strings"
 	"sync"
 	"time"
+	"verifharness/internal/tscale"
 
 	"github.com/basecomplextech/baselibrary/logging"
 	"github.com/basecomplextech/baselibrary/status"
@@ -79,7 +80,7 @@ func StartServer(h mpx.Handler, opts mpx.Options) (*Server, error) {
 	}
 	select {
 	case <-s.Listening().Wait():
-	case <-time.After(5 * time.Second):
+	case <-time.After(tscale.D(5 * time.Second)):
 		return nil, fmt.Errorf("server did not start listening")
 	}
 	return &Server{S: s, Addr: s.Address(), Logger: lg}, nil
@@ -88,7 +89,7 @@ func StartServer(h mpx.Handler, opts mpx.Options) (*Server, error) {
 func (s *Server) Stop() {
 	select {
 	case <-s.S.Stop():
-	case <-time.After(5 * time.Second):
+	case <-time.After(tscale.D(5 * time.Second)):
 	}
 }
 
